@@ -37,6 +37,22 @@ macro_rules! on_app {
     };
 }
 
+/// read-only access: must not go through `app_mut()` (observing the chain may not disturb it)
+macro_rules! on_app_ref {
+    ($self:expr, $app:ident => $body:expr) => {
+        match $self {
+            Chain::E(a) => {
+                let $app = a.app();
+                $body
+            }
+            Chain::C(a) => {
+                let $app = a.app();
+                $body
+            }
+        }
+    };
+}
+
 pub fn account_addr(name: &str) -> Addr {
     MockApi::default().addr_make(name)
 }
@@ -527,7 +543,7 @@ impl<'r> World<'r> {
     }
 
     pub fn block(&self) -> (u64, u64) {
-        let b = on_app!(&self.chain, app => app.block_info());
+        let b = on_app_ref!(&self.chain, app => app.block_info());
         (b.height, b.time.seconds())
     }
 
@@ -536,7 +552,7 @@ impl<'r> World<'r> {
         let mut out = BTreeMap::new();
         for c in &self.contracts {
             let a = Addr::unchecked(c.addr.clone());
-            let (h, journal, n, info) = on_app!(&self.chain, app => {
+            let (h, journal, n, info) = on_app_ref!(&self.chain, app => {
                 let dump = app.dump_wasm_raw(&a);
                 let mut h: u64 = 0xcbf29ce484222325;
                 let mut journal = String::new();
@@ -562,7 +578,7 @@ impl<'r> World<'r> {
         let mut who: Vec<String> = self.accounts.clone();
         who.extend(self.contracts.iter().map(|c| c.addr.clone()));
         for w in who {
-            let bal = on_app!(&self.chain, app => app.wrap().query_all_balances(w.clone()));
+            let bal = on_app_ref!(&self.chain, app => app.wrap().query_all_balances(w.clone()));
             out.insert(
                 format!("b:{}", w),
                 match bal {
